@@ -159,6 +159,21 @@ theorem readShape (cfg : Cfg) (c : Call) (hr : isRead c = true) : ReadShape cfg 
     · refine readShape_of_fetchValues cfg _ .gets ks none _ ?_
         (fun ie so sc => by simp only [call, hks, if_false] <;> rfl)
       rfl
+  | stats args =>
+    cases hw : args.mapM (checkArg cfg) with
+    | error e => exact .illegal (fun ie so sc => by simp only [call, hw, early])
+    | ok wire =>
+      exact .fetch .stats (adminFetchCmd (ofString "stats") wire) wire
+        (fun r => .stats (statsDict (wire.zip args) r)) rfl (fun ie so sc => by simp only [call, hw])
+  | cacheMemlimit m =>
+    cases hm : checkInteger m with
+    | error e => exact .illegal (fun ie so sc => by simp only [call, hm, early])
+    | ok i =>
+      cases hw : checkArg cfg (.bytes (intDec i)) with
+      | error e => exact .illegal (fun ie so sc => by simp only [call, hm, hw, early])
+      | ok w =>
+        exact .fetch (.values false) (adminFetchCmd (ofString "cache_memlimit") [w]) [w]
+          (fun _ => .bool true) rfl (fun ie so sc => by simp only [call, hm, hw])
   | _ => simp [isRead] at hr
 
 /-! ## the calls -/
